@@ -290,7 +290,7 @@ func extractCfg(file *ast.File, f *facts) (clauseHash string) {
 		f.miss("cfg.go: optimisation switch of the assignment")
 		return
 	}
-	var callArm, litArm *ast.CaseClause
+	var callArm, litArm, recvArm *ast.CaseClause
 	// an earlier arm with an empty body that catches calls and composite literals of multiple assignments
 	// keeps the two shortcut arms for single assignments only
 	guardBefore := false
@@ -305,6 +305,8 @@ func extractCfg(file *ast.File, f *facts) (clauseHash string) {
 			callArm = cc
 		case strings.HasPrefix(t, "src.action == aCompositeLit"):
 			litArm = cc
+		case strings.HasPrefix(t, "src.action == aRecv"):
+			recvArm = cc
 		case callArm == nil && litArm == nil && len(cc.Body) == 0 && strings.HasPrefix(t, "n.nleft > 1 && (") &&
 			strings.Contains(t, "isCall(src)") && strings.Contains(t, "src.action == aCompositeLit"):
 			guardBefore = true
@@ -323,6 +325,11 @@ func extractCfg(file *ast.File, f *facts) (clauseHash string) {
 		return strings.Contains(t, "nleft") || strings.Contains(t, "nright") || strings.Contains(t, "len(n.child)")
 	}
 	f.set("shortcutGuardsSingle", guardBefore || (guards(callArm) && guards(litArm)))
+	// `dest = <-c`: until 177a151 an arm redirected the receive node to the destination's slot
+	f.set("recvAssignsValue", recvArm == nil)
+	if recvArm != nil && !redirects(recvArm) {
+		f.miss("cfg.go: `src.action == aRecv` arm of the assignment optimisation without the redirection shape")
+	}
 	// which destinations are marked `redeclared` (8bd8040, narrowed by 6ebc898): a named variable of a short variable
 	// declaration found in its own, non-global scope
 	marks, goodGuard := 0, 0
@@ -359,6 +366,92 @@ func extractCfg(file *ast.File, f *facts) (clauseHash string) {
 		f.miss("cfg.go: `dest.redeclared = true` outside the shape `if !sc.global && n.kind == defineStmt && dest.ident != \"_\" { … }` under `sc.global || sc.isRedeclared(dest)`")
 	}
 	return
+}
+
+// extractRecvUnary: the twin of the receive shortcut in the post-order of unaryExpr — a unary operation that is the single
+// source of an assignment stores straight into the destination; since 177a151 a receive is excluded.
+func extractRecvUnary(cfg *ast.File, f *facts) {
+	n, excl := 0, 0
+	ast.Inspect(cfg, func(x ast.Node) bool {
+		cc, ok := x.(*ast.CaseClause)
+		if !ok || len(cc.List) != 1 {
+			return true
+		}
+		t := text(cc.List[0])
+		if strings.HasPrefix(t, "n.anc.kind == assignStmt && n.anc.action == aAssign && n.anc.nright == 1") && contains(cc, "n.findex = dest.findex") {
+			n++
+			if strings.HasSuffix(t, "&& n.action != aRecv") {
+				excl++
+			}
+		}
+		return true
+	})
+	switch {
+	case n == 1 && excl == 1:
+		// keeps the value decided from the assignment clause
+	case n == 1 && excl == 0:
+		f.set("recvAssignsValue", false)
+	default:
+		f.set("recvAssignsValue", false)
+		f.miss("cfg.go: unaryExpr arm `n.anc.kind == assignStmt && n.anc.action == aAssign && n.anc.nright == 1 …` storing into the destination")
+	}
+}
+
+// extractAssert: the destinations of the two-value type assertion and what a failed assertion stores (2fe0a18).
+func extractAssert(run *ast.File, f *facts) {
+	fd := common.FindFunc(run, "", "typeAssert")
+	if fd == nil {
+		f.miss("func typeAssert")
+		return
+	}
+	old := contains(fd, "value0 = genValue(n.anc.child[0])") && contains(fd, "value1 = genValue(n.anc.child[1])")
+	neu := contains(fd, "value0 = genValueDefine(n.anc.child[0])") && contains(fd, "value1 = genValueDefine(n.anc.child[1])")
+	switch {
+	case old && !neu:
+		f.set("assertDefineFresh", false)
+	case neu && !old:
+		f.set("assertDefineFresh", true)
+	default:
+		f.miss("typeAssert: destinations of the two-value form through genValue or genValueDefine")
+	}
+	// setResult: status, then the zero value when the assertion failed; deferred in every exec closure of the two-value form
+	var setResult *ast.FuncLit
+	for _, st := range fd.Body.List {
+		if a, ok := st.(*ast.AssignStmt); ok && len(a.Lhs) == 1 && text(a.Lhs[0]) == "setResult" {
+			setResult, _ = a.Rhs[0].(*ast.FuncLit)
+		}
+	}
+	if setResult == nil {
+		f.set("assertZeroOnFail", false)
+		if strings.Contains(text(fd), "reflect.Zero(") {
+			f.miss("typeAssert: a zero value is stored outside the setResult shape")
+		}
+		return
+	}
+	zeroes := false
+	ast.Inspect(setResult, func(x ast.Node) bool {
+		if is, ok := x.(*ast.IfStmt); ok && text(is.Cond) == "withResult && !*ok" && contains(is.Body, "v := value0(f)") &&
+			contains(is.Body, "v.Set(reflect.Zero(v.Type()))") {
+			zeroes = true
+		}
+		return true
+	})
+	execs, deferred := 0, 0
+	ast.Inspect(fd, func(x ast.Node) bool {
+		if a, ok := x.(*ast.AssignStmt); ok && len(a.Lhs) == 1 && text(a.Lhs[0]) == "n.exec" {
+			if fl, ok := a.Rhs[0].(*ast.FuncLit); ok {
+				execs++
+				if contains(fl, "defer setResult(f, &ok)") {
+					deferred++
+				}
+			}
+		}
+		return true
+	})
+	f.set("assertZeroOnFail", zeroes && execs > 0 && execs == deferred)
+	if !zeroes || execs != deferred {
+		f.miss(fmt.Sprintf("typeAssert: setResult zeroes the result of a failed assertion and is deferred in every exec closure (%d of %d)", deferred, execs))
+	}
 }
 
 // extractLit: where arrayLit / mapLit store the literal (genValueLit, since 1436613).
@@ -593,7 +686,8 @@ func main() {
 		for _, n := range []string{"assignCopies", "multiTemps", "multiDefineTemps", "multiDefineRedeclAssigns", "multiDefineRedeclCopies", "defineFresh",
 			"callCopiesArgs", "rangeSnapshotsArray", "closureClonesFrame", "callShortcut", "litShortcut", "shortcutGuardsSingle",
 			"structLitSetsSlot", "structLitAssignSets", "arrayLitSets", "arrayLitFresh", "arrayLitAssignInPlace", "lookup2OnlyIfValid",
-			"lookup2DefineFresh", "lookup2RedeclInPlace", "appendArgsAreSlots", "derefNilPanics"} {
+			"lookup2DefineFresh", "lookup2RedeclInPlace", "appendArgsAreSlots", "derefNilPanics", "recvAssignsValue", "assertDefineFresh",
+			"assertZeroOnFail"} {
 			f.set(n, false)
 		}
 		extractAssign(common.FindFunc(run, "", "assign"), f)
@@ -618,7 +712,10 @@ func main() {
 			f.miss("func genValueRangeArray")
 		}
 		if fd := common.FindFunc(run, "", "_range"); fd != nil {
-			if !contains(fd, "value = genValueRangeArray(an)") || !contains(fd, "f.data[index2] = value(f)") {
+			// since 9284c57 genValueRangeArray takes a second argument (key only: a nil pointer to an array is not dereferenced)
+			viaRange := contains(fd, "value = genValueRangeArray(an)") ||
+				(contains(fd, "value = genValueRangeArray(an, isBlank(n.child[1]))") && contains(fd, "value = genValueRangeArray(an, true)"))
+			if !viaRange || !contains(fd, "f.data[index2] = value(f)") {
 				f.set("rangeSnapshotsArray", false)
 				f.miss("_range: shadow copy through genValueRangeArray")
 			}
@@ -636,6 +733,8 @@ func main() {
 		}
 
 		clauseHash := extractCfg(cfg, f)
+		extractRecvUnary(cfg, f)
+		extractAssert(run, f)
 
 		if fd := common.FindFunc(run, "", "doComposite"); fd != nil {
 			ok := false
@@ -724,7 +823,7 @@ func main() {
 		fmt.Fprintf(&b, "/-- shapes the extractor looked for and did not find -/\ndef unrecognised : List String := %s\n", common.LeanStrList(f.unrecognised))
 		runNames := [][2]string{{"", "assign"}, {"", "assignFromCall"}, {"", "addr"}, {"", "deref"}, {"", "getIndexArray"},
 			{"", "getIndexMap"}, {"", "getIndexMap2"}, {"", "getFunc"}, {"", "getIndexSeq"}, {"", "getPtrIndexSeq"}, {"", "arrayLit"},
-			{"", "mapLit"}, {"", "genValueLit"}, {"", "genValueDefine"}, {"", "doComposite"}, {"", "_range"}, {"", "loopVarKey"}, {"", "loopVarVal"}, {"", "_append"}, {"", "appendSlice"}, {"", "_copy"},
+			{"", "mapLit"}, {"", "genValueLit"}, {"", "genValueDefine"}, {"", "typeAssert"}, {"", "recv"}, {"", "doComposite"}, {"", "_range"}, {"", "loopVarKey"}, {"", "loopVarVal"}, {"", "_append"}, {"", "appendSlice"}, {"", "_copy"},
 			{"", "_delete"}, {"", "slice"}, {"", "slice0"}}
 		hr := common.HashTable(fsetR, run, runNames)
 		// of `call` only the closure that performs an ordinary (not deferred, not go) call is transcribed: the last
